@@ -61,6 +61,36 @@ const COMMENTS: &[&str] = &[
 const WS: &[&str] = &[" ", "  ", "\t", "\n", "\n", "\r\n", "\r", "\n\n", "\n\r"];
 const ODD: &[&str] = &["\0", "\u{feff}", "\u{0}\u{0}", "\u{7f}", "\u{a0}", "\u{2028}", "😀", "\u{1}", "\u{fffd}", "#!shebang"];
 
+/// interesting beginnings of a file (the lexer's prologue, BOM handling, first-line rules)
+const PREFIXES: &[&str] = &[
+    "\u{feff}", "\u{feff}#", "\u{feff}#!sh\n", "\u{feff}#!sh\r\n", "#", "#!shebang\n", "#!\r", "\u{feff}\u{feff}", "\u{feff}\u{feff}#", "\0", "\0#",
+    "\r", "\n", "\r\n", "\u{2028}", "\u{85}", "\u{b}", "\u{c}", "\u{feff}\0", "\u{feff}\r", "\u{feff}\n#", "\u{feff} #", "#\u{feff}", "é", "名",
+    "\u{feff}é", "\u{feff}--", "\u{feff}---@", "--", "---@", "\u{feff}\"", "\u{feff}[[", " ", "\t#",
+];
+/// characters the lexer model branches on
+const SPECIALS: &[&str] = &["\u{feff}", "#", "\0", "\r", "\n", "\u{b}", "\u{c}", "é", "名", "\u{2028}", "\u{85}", "\\", "\"", "[", "-"];
+
+/// systematic placements: every prefix in front of a few bodies; every special at position 0, right after a BOM,
+/// and at the very end of the input
+fn placement_texts() -> Vec<String> {
+    const BODIES: &[&str] = &["", "x", "local a = 1\n", "--c", "---@type T\nlocal t", "\"s", "#t + 1\n"];
+    let mut v = Vec::new();
+    for b in BODIES {
+        for p in PREFIXES {
+            v.push(format!("{p}{b}"));
+        }
+        for s in SPECIALS {
+            v.push(format!("{s}{b}"));
+            v.push(format!("{}{s}{b}", "\u{feff}"));
+            v.push(format!("{b}{s}"));
+            v.push(format!("{b}\n{s}"));
+        }
+    }
+    v.sort();
+    v.dedup();
+    v
+}
+
 fn lexeme(rng: &mut Rng) -> &'static str {
     match rng.below(16) {
         0..=2 => pk(rng, KEYWORDS),
@@ -459,6 +489,13 @@ fn gen_text(rng: &mut Rng, stds: &[String], maxlen: usize) -> (usize, String) {
         let e = floor_boundary(&s, maxlen);
         s.truncate(e);
     }
+    // interesting prefixes and final characters, in every mode
+    if rng.chance(1, 4) {
+        s.insert_str(0, pk(rng, PREFIXES));
+    }
+    if rng.chance(1, 8) {
+        s.push_str(pk(rng, SPECIALS));
+    }
     (mode, s)
 }
 
@@ -810,6 +847,7 @@ fn corpus_texts() -> Vec<String> {
     .iter()
     .map(|s| s.to_string())
     .collect();
+    v.extend(placement_texts());
     // corpus/C01/*.json : {"texts": [...]}
     let dir = std::env::var("VERIF_CORPUS").unwrap_or_else(|_| "/verif/corpus/C01".to_string());
     if let Ok(rd) = std::fs::read_dir(&dir) {
